@@ -53,20 +53,20 @@ Hows(L) == IF L.loc = "points" THEN {"struct", "unstr", "upoints"} ELSE {"struct
 SrcLayouts == {L \in Layouts({"uniform", "rect"}, {<<3>>, <<2, 3>>, <<3, 3>>}) : L.order = "F" \/ (L.rev /\ L.dims = <<2, 3>>)}
 DstLayouts == {L \in Layouts({"uniform"}, {<<4>>, <<3, 2>>, <<3, 3>>}) : (L.order = "C" /\ ~L.rev) \/ (L.order = "F" /\ L.rev)}
              \cup {L \in Esri : L.dims = <<3, 3>>}
-NearestCases ==
+NearestCases(u) ==
   {c \in {[kind |-> "nearest", src |-> s, dst |-> d, su |-> su, tu |-> tu, sm |-> sm, tm |-> tm, fill |-> FALSE] :
             s \in SrcLayouts, d \in DstLayouts, su \in {"struct", "unstr", "upoints"}, tu \in {"struct", "unstr"},
             sm \in BOOLEAN, tm \in BOOLEAN} :
      /\ D(c.src) = D(c.dst) /\ c.su \in Hows(c.src) /\ c.tu \in Hows(c.dst) /\ Live(c) # {}
      /\ (c.dst.kind = "esri" => c.tu = "struct")}
 (* identity between layouts of one grid *)
-IdentityCases ==
+IdentityCases(u) ==
   {[kind |-> "nearest", src |-> s, dst |-> d, su |-> "struct", tu |-> "struct", sm |-> FALSE, tm |-> FALSE, fill |-> FALSE] :
      s \in Layouts({"uniform"}, {<<2, 3>>, <<3, 2, 2>>}), d \in Layouts({"uniform"}, {<<2, 3>>, <<3, 2, 2>>})}
-IdCases == {c \in IdentityCases : c.src.dims = c.dst.dims /\ c.src.loc = c.dst.loc}
+IdCases(u) == {c \in IdentityCases(0) : c.src.dims = c.dst.dims /\ c.src.loc = c.dst.loc}
 LinSrc == {L \in Layouts({"uniform", "rect"}, {<<3, 3>>, <<2, 3>>, <<3, 4>>}) : L.order = "F" /\ ~L.rev /\ \A a \in 1..2 : L.inc[a]}
 LinDst == {L \in Layouts({"uniform", "rect"}, {<<3, 3>>, <<4, 3>>}) : L.order = "C" /\ ~L.rev /\ \A a \in 1..2 : L.inc[a]}
-LinearCases ==
+LinearCases(u) ==
   {c \in {[kind |-> "linear", src |-> s, dst |-> d, su |-> su, tu |-> "struct", sm |-> sm, tm |-> tm, fill |-> f] :
             s \in LinSrc, d \in LinDst, su \in {"struct", "unstr", "upoints"}, sm \in BOOLEAN, tm \in BOOLEAN, f \in BOOLEAN} :
      /\ c.su \in Hows(c.src) /\ (c.su = "struct" => c.sm)     \* unstructured or masked sources only
